@@ -239,8 +239,8 @@ def link_generator(ctx, mutate=None, tag=""):
                           T.render(t, T.Interp(placeholder=placeholder)), D.TOPLINE, ("C14", "C13")))
         for prop, attr in (("local_vars", "_local_vars"), ("conditional_ids", "_conditional_ids")):
             ex = G.executor(contracts_except(prop))
-            me = G.me()
             sym = S.Sym("names", "list", nonempty=True)
+            me = G.me(ast_node=S.Node("ExperimentAST", id=S.Sym("id", "ident"), splitting_fields=sym, salt=None, conditions=S.Sym("C", "node:cond")))
             me.attrs[attr] = S.SetT([("of", sym)])
             r = ex.dispatch(prop, me, [], {})
             ok = isinstance(r, S.SeqT) and r.op == "sorted" and r.args[0].atoms == me.attrs[attr].atoms
@@ -489,7 +489,7 @@ def link_generator(ctx, mutate=None, tag=""):
                     for j, sv in enumerate(STR_POOL if salt is not None else [None]):
                         if salt is not None and i > 0 and j > 2:
                             continue
-                        vals = {F.id: names}
+                        vals = {F.id: names, node.fields["id"].id: "exp"}
                         if salt is not None:
                             vals[salt.id] = sv
                         I = T.Interp(vals, placeholder=placeholder)
@@ -553,7 +553,7 @@ def link_generator(ctx, mutate=None, tag=""):
     run("generate", "generate", ("C14", "C07", "C09"), gen)
 
     # ---- I. identifiers as Python names (C07 / C14 name capture) ------------------------------------------------------
-    out.extend(identifier_obligations(pre))
+    out.extend(identifier_obligations(pre, cases))
 
     # ---- oracle -----------------------------------------------------------------------------------------------------
     if cases:
@@ -626,30 +626,88 @@ def raw_obligation(oid, method, raw, ctx, props):
     return o
 
 
-RESERVED_KNOWN = None
+SKELETON_DOCUMENTED = {"partial", "deterministic_choice", "ExperimentConditionalFailedError", D.HELPER, "kwargs", "str", "map"}
+MODULE_BOUND_DOCUMENTED = {"partial", "deterministic_choice", "ExperimentConditionalFailedError", D.HELPER}
+IDRE = z3.Concat(z3.Union(z3.Range("a", "z"), z3.Range("A", "Z"), z3.Re("_")), z3.Star(z3.Union(z3.Range("a", "z"), z3.Range("A", "Z"), z3.Range("0", "9"), z3.Re("_"))))
 
 
-def identifier_obligations(pre):
-    """DSL identifiers are emitted verbatim as Python parameter names.  Full obligation: no identifier the lexer
-    accepts is a Python keyword or a name the skeleton itself uses (refuted: `class`, `partial`, ...).  Restricted
-    obligation (always required): the set of capturing names is exactly the documented one."""
-    skeleton = {"partial", "deterministic_choice", "ExperimentConditionalFailedError", D.HELPER, "kwargs", "str", "map"}
-    reserved = sorted(set(keyword.kwlist) | skeleton)
-    idre = z3.Concat(z3.Union(z3.Range("a", "z"), z3.Range("A", "Z"), z3.Re("_")), z3.Star(z3.Union(z3.Range("a", "z"), z3.Range("A", "Z"), z3.Range("0", "9"), z3.Re("_"))))
+def skeleton_names(cases):
+    """names the GENERATED code itself uses / binds, computed from the rendered templates of this run"""
+    used, bound = set(), set()
+    for c in cases:
+        if not any(k in c.oid for k in ("generate/", "generate_key_definition/", "_generate_group_return_statement/", "_generate_exception/")):
+            continue
+        try:
+            tree = ast.parse(c.real, mode="eval" if c.mode == "eval" else "exec")
+        except SyntaxError:
+            continue
+        note = c.note or {}
+        mine = set(note.get("splitters") or []) | set(note.get("condition_fields") or []) | {note.get("id")} | {"f", "g", "x"}
+        top = c.mode != "eval" and "generate/" in c.oid
+        for n in ast.walk(tree):
+            if isinstance(n, ast.Name) and not n.id.startswith("__") and n.id not in mine:
+                used.add(n.id)
+            if isinstance(n, ast.arguments) and n.kwarg is not None:
+                used.add(n.kwarg.arg)
+        if top:
+            for n in tree.body:
+                if isinstance(n, ast.FunctionDef) and n.name not in mine:
+                    bound.add(n.name)
+                if isinstance(n, (ast.Import, ast.ImportFrom)):
+                    for a in n.names:
+                        bound.add((a.asname or a.name).split(".")[0])
+            for n in ast.walk(tree):
+                if isinstance(n, ast.FunctionDef) and n.name not in mine:
+                    used.add(n.name)
+    return used, bound
+
+
+def identifier_obligations(pre, cases):
+    """DSL identifiers are emitted verbatim as Python names.
+    C07 full obligation: no identifier the lexer accepts is a Python keyword or a name the skeleton uses (refuted: a
+    recorded known finding).  Restricted obligation (must always hold): the capturing names are exactly the
+    documented ones -- a change that makes the skeleton use a further name is a NEW violation.
+    C14 likewise for the experiment id vs the names the generated MODULE binds."""
+    used, bound = skeleton_names(cases)
+    out = []
+    reserved = sorted(set(keyword.kwlist) | used)
     n = z3.String("name")
-    s = z3.Solver()
-    s.add(z3.InRe(n, idre), z3.Or(*[n == z3.StringVal(r) for r in reserved]))
-    sat = s.check() == z3.sat
-    wit = s.model()[n].as_string() if sat else None
 
-    def rep(ob):
+    def wit(names):
+        s = z3.Solver()
+        s.add(z3.InRe(n, IDRE), z3.Or(*[n == z3.StringVal(r) for r in names]) if names else z3.BoolVal(False))
+        return s.model()[n].as_string() if s.check() == z3.sat else None
+
+    def rep07(ob):
         progs = ['def e { splitters: uid if class == 1 { return "A" weighted 1 } else { return "B" weighted 1 } }',
                  'def e { splitters: uid if partial == 1 { return "A" weighted 1 } else { return "B" weighted 1 } }',
                  'def e { splitters: str return "A" weighted 1, "B" weighted 1 }']
         r = native.one({"cmd": "pipeline_diff", "programs": progs, "limit": 3, "envs": 4})
         f = [v[0] for v in r["failures"].values() if v]
         return {"input": f[:2], "reproduced": bool(f)}
-    full = Obl(pre + "identifiers/never-capture-python-names", GFN + "generate", "template",
-               "no identifier the lexer accepts is a Python keyword or a name the generated skeleton uses (partial, deterministic_choice, str, map, kwargs, ...)",
-               status=REFUTED if sat else DISCHARGED, backend="z3", detail="witness identifier %r" % wit, props=("C07",), model={"identifier": wit, "reserved": reserved}, replay=rep)
-    return [full]
+    w = wit(reserved)
+    out.append(Obl(pre + "identifiers/never-capture-python-names", GFN + "generate", "template",
+                   "no identifier the lexer accepts is a Python keyword or a name the generated skeleton uses",
+                   status=REFUTED if w else DISCHARGED, backend="z3", detail="witness identifier %r; skeleton names %s" % (w, sorted(used)), props=("C07",),
+                   model={"identifier": w, "skeleton_names": sorted(used)}, replay=rep07))
+    extra = sorted(used - SKELETON_DOCUMENTED)
+    out.append(Obl(pre + "identifiers/capturing-names-are-the-documented-ones", GFN + "generate", "template",
+                   "the names the generated skeleton uses are within %s (exclusion set of known finding KF-C07-reserved-identifiers)" % sorted(SKELETON_DOCUMENTED),
+                   status=DISCHARGED if not extra else REFUTED, backend="structural", detail="skeleton uses %s" % sorted(used), props=("C07",),
+                   model={"new_capturing_names": extra}, replay=rep07))
+
+    def rep14(ob):
+        r = native.one({"cmd": "module_vs_evaluator", "ids": ["partial", "deterministic_choice", D.HELPER, "exp"]})
+        bad = [x for x in r if not x["same"]]
+        return {"input": bad[:2], "reproduced": bool(bad)}
+    w2 = wit(sorted(bound))
+    out.append(Obl(pre + "module/experiment-id-never-rebinds-a-module-name", GFN + "generate", "template",
+                   "no experiment id the lexer accepts equals a name the generated module binds (imports, helper): otherwise the module text rebinds it while the in-memory evaluator does not",
+                   status=REFUTED if w2 else DISCHARGED, backend="z3", detail="witness id %r; module binds %s" % (w2, sorted(bound)), props=("C14",),
+                   model={"experiment_id": w2, "module_bound_names": sorted(bound)}, replay=rep14))
+    extra2 = sorted(bound - MODULE_BOUND_DOCUMENTED)
+    out.append(Obl(pre + "module/bound-names-are-the-documented-ones", GFN + "generate", "template",
+                   "the names bound at module level by the generated text are within %s (exclusion set of known finding KF-C14-experiment-id-capture)" % sorted(MODULE_BOUND_DOCUMENTED),
+                   status=DISCHARGED if not extra2 else REFUTED, backend="structural", detail="module binds %s" % sorted(bound), props=("C14",),
+                   model={"new_bound_names": extra2}, replay=rep14))
+    return out
